@@ -80,8 +80,8 @@ def run(ctx):
             nmax = 7 * nb + 2
             for idx in range(nmax):
                 for ar in (1, 0):
-                    v = bad_vals[(idx + kind + ar) % len(bad_vals)] if quick else None
-                    vs = [v] if quick else bad_vals
+                    off = idx + kind + ar
+                    vs = [bad_vals[off % len(bad_vals)]] if quick else [bad_vals[(off + 3 * t) % len(bad_vals)] for t in range(3)]
                     for v in vs:
                         creq.append(((seed, feat, nb), kind, ar, rng.choice([0, 0, 1, 5]), rng.randrange(0, 9), [(idx, v)]))
             for rep in range(6 if quick else 40):
